@@ -99,6 +99,64 @@ def u_get_z(ctx):
                  replay="C18.alloc")
 
 
+@unit("C18", "_urwid:UrwidImage.__init__")
+def u_widget_init(ctx):
+    """A kitty image widget renders with exactly the z-index it was allocated - whatever the format specifier said - because
+    clear_images / _ti_clear_images delete placements by the widget's own z-index; other styles take no z-index at all."""
+    obs = []
+    for style in ("kitty", "text", "other"):
+        for spec_has_z in ((False, True) if style == "kitty" else (False,)):
+            for konsole in ((False, True) if style == "kitty" else (False,)):
+                eng = ctx.engine(f"C18/UrwidImage.__init__[{style},spec-z={spec_has_z},konsole={konsole}]", "C18")
+                eng.default_replay = "C18.widget_z_index"
+                st = State()
+                eng.classes.update({"KittyImage": ("GraphicsImage",), "GraphicsImage": ("BaseImage",), "BlockImage": ("TextImage",),
+                                    "TextImage": ("BaseImage",), "ITerm2Image": ("GraphicsImage",), "BaseImage": (), "UrwidImage": ("Widget",), "Widget": ()})
+                for c in ("KittyImage", "TextImage", "BaseImage"):
+                    eng.genv[c] = ClassV(c)
+                eng.genv["Size"] = ctx.ns("term_image.image.common").d["Size"]
+                eng.genv["urwid"] = Namespace("urwid", {"Widget": ClassV("Widget")})
+                eng.genv["super"] = Fn(lambda e, s, a, k: [(Rec("super", {}), s)])
+                eng.attrs[("super", "__init__")] = lambda e, s, v: [(Fn(lambda e2, s2, a, k: [(None, s2)]), s)]
+                zspec, zalloc = z3.Int("z_from_spec"), z3.Int("z_allocated")
+                items = {"z_index": zspec} if spec_has_z else {}
+                style_args = st.new("dict", {"@items": dict(items)})
+                image = st.new({"kitty": "KittyImage", "text": "BlockImage", "other": "ITerm2Image"}[style], {})
+                for c in ("KittyImage", "BlockImage", "ITerm2Image"):
+                    eng.methods[(c, "_check_format_spec")] = lambda e, s, recv, a, k: [(("h", 0, "v", 0, Opaque("alpha"), style_args), s)]
+                st.ghost["allocs"] = 0
+
+                def get_z(e, s, recv, a, k):
+                    s = e.fork(s)
+                    s.ghost["allocs"] += 1
+                    return [(zalloc, s)]
+                eng.methods[("UrwidImage", "_ti_get_z_index")] = get_z
+                eng.genv["get_terminal_name_version"] = Fn(lambda e, s, a, k, konsole=konsole: [(("konsole" if konsole else "kitty", "1"), s)])
+                eng.genv["arg_type_error"] = Fn(lambda e, s, a, k: [(ExcVal("TypeError"), s)])
+                self_ = st.new("UrwidImage", {})
+                st.env.update(self=self_, image=image, format_spec="", upscale=False)
+                outs = run_function(eng, ctx.fn(URW, "UrwidImage.__init__"), st)
+                for kind, val, s in outs:
+                    if kind == "raise":
+                        eng.oblige(f"no-exception:{val.cls}", s, False, kind="raise")
+                        continue
+                    h = s.H(self_)
+                    sa = h.get("_ti_style_args")
+                    it = s.H(sa)["@items"] if isinstance(sa, Ref) else None
+                    if it is None:
+                        raise Unsupported("widget does not keep its style arguments in _ti_style_args")
+                    if style == "kitty":
+                        goal = And("z_index" in it and Eq(it["z_index"], zalloc), "_ti_z_index" in h and Eq(h["_ti_z_index"], zalloc), s.ghost["allocs"] == 1,
+                                   # konsole keeps blending (less flicker); everywhere else overlapped images are cleared per line
+                                   ("blend" not in it) if konsole else (it.get("blend") is False))
+                        eng.oblige("kitty-widget-renders-with-its-own-allocated-z-index(the-one-it-is-deleted-by)", s, goal, kind="post")
+                    else:
+                        eng.oblige("no-z-index-taken-by-other-styles", s, And(s.ghost["allocs"] == 0, "_ti_z_index" not in h, "z_index" not in it,
+                                                                               (it.get("split_cells") is True) if style == "text" else True), kind="post")
+                obs += eng.obligations
+    return obs
+
+
 @unit("C18", "_urwid:UrwidImage.__del__")
 def u_del(ctx):
     eng = ctx.engine("C18/UrwidImage.__del__", "C18")
